@@ -28,6 +28,110 @@ def parent_map(fn):
     return pm
 
 
+def explicit_walk(P: Program, R: Report, c, gparam: str, sel: str) -> None:
+    """R15.4 - a hand-written parent walk instead of nx.ancestors.
+
+    Invariant that makes such a walk a closure: when the function returns, every node in the result has its
+    parent in the result (or has none).  A walk upwards from a node may therefore stop only
+      (a) when there is no parent,
+      (b) at a parent that is already in the RESULT - sound iff everything already in the result satisfies the
+          invariant, i.e. iff every other way of stopping is sound too,
+      (c) at a parent that is in the SELECTION - sound iff every selected node gets its own walk, i.e. iff the
+          outer loop does not skip selected nodes that are already in the result.
+    (c) together with such a skip is the recognised-bad combination: a selected inner node that is first reached
+    from a selected descendant is added, the walk stops there, and its own walk is skipped.
+    Any exit that is none of (a)-(c) is not decided."""
+    from ..resolve import Resolver
+
+    rs = Resolver(P, c)
+    ret = [r for r in ast.walk(c.node) if isinstance(r, ast.Return) and r.value is not None]
+    result = None
+    for r in ret:
+        v = r.value
+        while isinstance(v, ast.Call) and call_name(v) in ("list", "sorted", "set") and v.args:
+            v = v.args[0]
+        if isinstance(v, ast.Name):
+            result = v.id
+    sel_names = {sel} | {n for n, d in rs._defs.items() if len(d) == 1 and norm(d[0]) in (f"set({sel})", f"list({sel})", f"frozenset({sel})", sel)}
+    outer = [lp for lp in ast.walk(c.node) if isinstance(lp, ast.For) and norm(lp.iter) in sel_names | {f"set({sel})", f"list({sel})"} and isinstance(lp.target, ast.Name)]
+    whiles = [w for lp in outer for w in ast.walk(lp) if isinstance(w, ast.While)]
+    if result is None or len(outer) != 1 or len(whiles) != 1:
+        R.undecided("R15.4", c, c.node, "the closure is computed by an explicit walk over predecessors", "walk shape not recognised: not decided")
+        return
+    lp, w = outer[0], whiles[0]
+    node = lp.target.id
+
+    def classify(cond: ast.expr, negate: bool) -> str:
+        """kind of the exit condition (the condition under which the walk stops)"""
+        if isinstance(cond, ast.UnaryOp) and isinstance(cond.op, ast.Not):
+            return classify(cond.operand, not negate)
+        if isinstance(cond, ast.Compare) and len(cond.ops) == 1:
+            op, rhs = cond.ops[0], norm(cond.comparators[0])
+            stop_is = isinstance(op, ast.Is) != negate if isinstance(op, (ast.Is, ast.IsNot)) else None
+            if isinstance(op, (ast.Is, ast.IsNot)) and rhs == "None":
+                return "none" if stop_is else "unknown"
+            if isinstance(op, (ast.In, ast.NotIn)):
+                stop_in = isinstance(op, ast.In) != negate
+                if not stop_in:
+                    return "unknown"
+                if rhs == result:
+                    return "result"
+                if rhs in sel_names:
+                    return "selection"
+        return "unknown"
+
+    exits: list[tuple[str, ast.AST, str]] = []
+    # the loop test: the walk stops when any conjunct is false
+    conj = w.test.values if isinstance(w.test, ast.BoolOp) and isinstance(w.test.op, ast.And) else [w.test]
+    if isinstance(w.test, ast.BoolOp) and isinstance(w.test.op, ast.Or):
+        exits.append(("unknown", w, norm(w.test)))
+    elif not (isinstance(w.test, ast.Constant) and w.test.value is True):
+        for cj in conj:
+            exits.append((classify(cj, True), w, f"not ({norm(cj)})"))
+    pm = parent_map(w)
+    for b in ast.walk(w):
+        if isinstance(b, (ast.Break, ast.Return)):
+            g = pm.get(b)
+            if isinstance(g, ast.If) and b in g.body and not (isinstance(g.test, ast.BoolOp)):
+                exits.append((classify(g.test, False), b, norm(g.test)))
+            else:
+                exits.append(("unknown", b, norm(g.test) if isinstance(g, ast.If) else "?"))
+        if isinstance(b, ast.Raise):
+            exits.append(("unknown", b, "raise"))
+    skip = False
+    for st in lp.body:
+        if st is w or any(x is w for x in ast.walk(st)):
+            break
+        if isinstance(st, ast.If) and any(isinstance(x, ast.Continue) for x in st.body):
+            k = classify(st.test, False)
+            if k == "result":
+                skip = True
+            else:
+                exits.append(("unknown", st, norm(st.test)))
+    # every node the walk stands on is added to the result
+    step_vars = {t.id for st in ast.walk(w) if isinstance(st, ast.Assign) for t in st.targets if isinstance(t, ast.Name) and "predecessors" in norm(st.value)}
+    added = {norm(x.args[0]) for x in ast.walk(lp) if isinstance(x, ast.Call) and call_name(x) == "add" and norm(x.func.value) == result and x.args}
+    seeds_result = any(norm(d) in (f"set({sel})", f"{sel}.copy()") for d in rs._defs.get(result, []))
+    if not step_vars or not step_vars <= added or not (node in added or seeds_result):
+        R.undecided("R15.4", c, w, "the walk adds every node it visits to the result", f"visited {sorted(step_vars)}, added {sorted(added)}: not decided")
+        return
+    kinds = {k for k, _, _ in exits}
+    if "unknown" in kinds:
+        bad = [t for k, _, t in exits if k == "unknown"]
+        R.undecided("R15.4", c, w, "the parent walk stops only where the ancestors are collected", f"exit conditions not recognised: {bad}")
+        return
+    if "none" not in kinds:
+        R.undecided("R15.4", c, w, "the parent walk stops at a root", "no `is None` exit recognised")
+        return
+    for k, site, txt in exits:
+        if k == "selection":
+            R.check(not skip, "R15.4", c, site, "a walk may stop at a selected ancestor only if every selected node still gets its own walk",
+                    f"the walk stops at `{txt}` while the outer loop skips selected nodes already in `{result}`: a selected inner node first reached "
+                    "from a selected descendant never has its ancestors collected (exported rows then name a parent that is not exported)", via="loop-invariant")
+        else:
+            R.ok("R15.4", c, site, f"walk exit `{txt}` leaves the closure invariant intact", f"kind {k}", via="loop-invariant")
+
+
 def run(P: Program, R: Report, tier: str) -> None:
     R.explanation = (
         "Taint analysis of the selection parameter in both exporters (it may flow only into the "
@@ -141,7 +245,7 @@ def run(P: Program, R: Report, tier: str) -> None:
     if not anc:
         walks = [x for x in ast.walk(c.node) if isinstance(x, ast.Call) and call_name(x) in ("predecessors", "in_edges", "reverse")]
         if walks:
-            R.undecided("R15.3", c, c.node, "the closure is computed by an explicit walk over predecessors", "shape not recognised: not decided")
+            explicit_walk(P, R, c, gparam, sel)
         else:
             R.fail("R15.3", c, c.node, "the closure adds the ancestors of the selected nodes", "no ancestor computation found")
     pmc = parent_map(c.node)
